@@ -21,6 +21,19 @@ pub const SIG_F6: &str = "remove_expired removes the expired entry without its d
 pub const SIG_F7: &str = "submit_entry inserts a child whose parent left the pool after pre_check";
 pub const SIG_F11: &str = "descendants of a detached tx that cannot be re-added stay pooled";
 pub const SIG_F12: &str = "remove_by_detached_proposal drops an entry whose re-add fails but re-adds its descendants";
+/// C11's F9 code path reaching C12 without a panic: check_and_record_ancestors evicts the pooled users of a cell the new
+/// transaction consumes when it is over the ancestor limit — also when such a user is a PARENT of the new transaction
+pub const SIG_F9P: &str = "add_entry evicts a cell-ref parent of the new tx and keeps the new tx";
+/// the missing parent `ph` depended (cell dep) on a cell that the orphaned entry consumes: F9P's footprint
+pub fn f9p_footprint(w: &World, e: &EntryDump, ph: &Byte32) -> bool {
+    match w.tx_id.get(ph) {
+        Some(i) => {
+            let p = &w.txs[*i].tx;
+            p.cell_deps_iter().any(|d| e.inputs.iter().any(|op| *op == d.out_point()))
+        }
+        None => false,
+    }
+}
 pub const SIG_GAP: &str = "gap-stage entry is not demoted when its proposal leaves the window from the gap";
 
 /// every input / dep of a pooled tx is live on the chain or an output of a pooled tx
@@ -117,6 +130,9 @@ pub fn c12_predicate(w: &World, dump: &PoolDump, ch: &Change, before: Option<&Po
     for (what, detail, ph) in unres {
         let mut sig = w.orphan_cause.get(&ph).cloned();
         if sig.is_none() {
+            if dump.entries.iter().any(|e| e.inputs.iter().any(|op| op.tx_hash() == ph) && f9p_footprint(w, e, &ph)) { sig = Some(SIG_F9P); }
+        }
+        if sig.is_none() {
             // F6: the missing parent was pooled before this update and had expired
             if let Some(pe) = before.and_then(|b| b.entries.iter().find(|e| e.tx_hash == ph)) {
                 if pe.timestamp + w.cfg.expiry_hours as u64 * 3_600_000 < w.clock {
@@ -160,7 +176,9 @@ pub fn c12_predicate(w: &World, dump: &PoolDump, ch: &Change, before: Option<&Po
                             if !seen.insert(h.clone()) { continue; }
                             if let Some(e) = bh.get(&h) {
                                 let pid = ckb_types::packed::ProposalShortId::from_tx_hash(&h);
-                                if e.status != Status::Pending && !view.set().contains(&pid) && !view.gap().contains(&pid) { left_window = true; break; }
+                                // (the dump before may be older than the entry's proposal: what remove_by_detached_proposal acts on is
+                                // exactly "in the old proposed set, not in the new one")
+                                if (e.status != Status::Pending || ch.old_set.contains(&pid)) && !view.set().contains(&pid) && !view.gap().contains(&pid) { left_window = true; break; }
                                 stack.extend(e.inputs.iter().chain(e.related_deps.iter()).map(|op| op.tx_hash()));
                             }
                         }
